@@ -335,7 +335,8 @@ Lemma chomp_number_spec pos s t n : chomp_number pos s = Match t n -> tok_spec s
 Proof.
   unfold chomp_number. destruct (number_span s 0 [] 0) as [d k] eqn:Es.
   destruct k as [|k]; [discriminate|].
-  destruct (parse_f64 d); [|discriminate].
+  destruct (parse_f64 d) as [x|]; [|discriminate].
+  destruct (f64_is_finite x); [|discriminate].
   intros H; inversion H; subst. apply tok_spec_plain; try reflexivity.
   apply number_span_spec in Es. destruct Es as [Es|(m & c & E & Hc & Hn)]; [discriminate|].
   exists m, c. auto.
@@ -346,7 +347,8 @@ Lemma chomp_number_fail pos s e :
 Proof.
   unfold chomp_number. destruct (number_span s 0 [] 0) as [d k].
   destruct k as [|k]; [discriminate|].
-  destruct (parse_f64 d); [discriminate|]. intros H; inversion H; eauto.
+  destruct (parse_f64 d) as [x|]; [destruct (f64_is_finite x); [discriminate|]|];
+    intros H; inversion H; eauto.
 Qed.
 
 Lemma chomp_remark_spec s t n : chomp_remark s = Match t n -> tok_spec s t n.
